@@ -15,6 +15,7 @@ import Pymc.Model.Pooled
 import Pymc.Model.PooledCall
 import Pymc.Model.HashCall
 import Pymc.Model.HashCallMany
+import Pymc.Model.HashPooledCall
 import Pymc.Model.Serde
 import Pymc.Model.Aws
 import Pymc.Model.HashRoute
@@ -682,6 +683,72 @@ def handleHashCall (ws : List String) : Option String := do
       go st1 (k + 1) rest (line :: acc)
   pure ("ok " ++ " | ".intercalate (go (HashCall.init (List.range n) t0) 0 calls []))
 
+/-! ### C01/C09/C13: `HashClient ∘ PooledClient ∘ Client` (`Pymc/Model/HashPooledCall.lean`), a whole history in one line (stateless)
+
+`hashpooledcall cfg=<au><utf8><dnr><ign>:<pfxhex> fo=<retry_attempts>,<retry_timeout>,<dead_timeout> pool=<max>,<idle> n=<servers> t0=<t> <call> | <call> | …`
+
+* `cfg=`, `fo=`, `n=`, `t0=` as for `hashcall` (`<ign>` is the `ignore_exc` of the `HashClient`; neither the `PooledClient`s nor
+  their inner clients ignore); `pool=` is `max_pool_size,pool_idle_timeout` of every `PooledClient` as for `pooledcall`;
+* a `<call>` is a single-key call of `hashcall`: `rk=<s,s,…> t=<now>[,<release>] op=… <arguments of the op> [cf=x<code>]
+  [sf=x<code>] ev=… ev=…`; `t=` is the time of the call (bookkeeping clock and pool checkout), optionally followed by
+  the time at which the pool releases the inner client (default: the same).  The multi-key operations are not accepted.
+
+Example:
+`hashpooledcall cfg=0000: fo=0,1,5 pool=1,0 n=2 t0=0 rk=0,1 t=0 op=get k=b:6b ev=d:454e440d0a | rk=0,1 t=1 op=get k=b:6b sf=x32 | rk=0,1 t=8 op=get k=b:6b ev=d:454e440d0a`
+
+Reply: `ok <obs> | <obs> | …` with one `<obs>` per call:
+`res=<result token|exc:…> srv=<server handed to _safely_run_func|-> pc=<number of the PooledClient invoked|-> inner=<inner client
+that served, numbered per pool|-> io=<connection, numbered per pool|-> nodes=[…] failed=[…] dead=[…] ldc=<t>
+pools=[<server>:<PooledClient>:<idle clients: id/conn/open/bytes unread, `;`-separated or ->:<closed connections, `.`-separated or ->:<checked out>,…]
+cons=<tags of the consumed recv() results>` (bookkeeping state and registered pools after the call). -/
+def handleHashPooledCall (ws : List String) : Option String := do
+  let (cfg, ign) ← parseCfg ws
+  let fo ← natList (← arg ws "fo")
+  let fcfg : Failover.Cfg ← match fo with | [ra, rt, dt] => some ⟨ra, rt, dt, ign⟩ | _ => none
+  let pl ← natList (← arg ws "pool")
+  let pcfg : Pooled.Cfg ← match pl with | [m, i] => some ⟨m, i⟩ | _ => none
+  let n ← (← arg ws "n").toNat?
+  let t0 ← (← arg ws "t0").toNat?
+  let calls ← (splitOnTok ws "|").mapM fun seg => do
+    let t ← natList (← arg seg "t")
+    let (now, fin) ← match t with | [a] => some (a, a) | [a, b] => some (a, b) | _ => none
+    let c ← parseCall seg
+    let cf ← parseExcOpt ((arg seg "cf").getD "-")
+    let sf ← parseExcOpt ((arg seg "sf").getD "-")
+    let evs ← evsOf seg
+    let rk ← natList (← arg seg "rk")
+    pure ({ rk := rk, call := c, sc := { connectFails := cf, sendFails := sf, evs := evs }, now := now, fin := fin } :
+      HashPooledCall.HPCall (List Nat))
+  let showO := fun (o : Option Nat) => match o with | some i => toString i | none => "-"
+  let dash := fun (sep : String) (l : List String) => if l = [] then "-" else sep.intercalate l
+  let rec go (st : HashPooledCall.St pcfg) (k : Nat) (cs : List (HashPooledCall.HPCall (List Nat))) (acc : List String) :
+      List String :=
+    match cs with
+    | [] => acc.reverse
+    | hc :: rest =>
+      let (st1, ob) := HashPooledCall.callHP cfg pcfg fcfg Failover.prefRoute st k hc.now hc.fin hc.rk hc.call hc.sc
+      let res := match ob.res with
+        | .value r => showRes r
+        | .default => showRes (HashCall.defaultRes hc.call)
+        | .raised _ (.inner e) => "exc:" ++ showExc e
+        | .raised _ .tooManyObjects => "exc:TooManyObjects"
+        | .allDown => "exc:MemcacheError"
+        | .illegalKey => "exc:IllegalInput"
+        | .internalError => "exc:Internal"
+      let po : Option PooledCall.PObs := ob.inner
+      let cons := match HashPooledCall.stepOf ob with
+        | some stp => if stp.consumed = [] then "-" else ",".intercalate (stp.consumed.map fun (te : Framing.TEv) => toString te.1)
+        | none => "-"
+      let pools := ",".intercalate (st1.clients.map fun (s, x) =>
+        let p : PooledCall.St := x.st
+        let free := dash ";" (p.free.map fun cl =>
+          let unread := if cl.sockOpen then (Readers.joinData (cl.pipe.map fun (te : Framing.TEv) => te.2)).length else 0
+          s!"{cl.id}/{showO cl.conn}/{if cl.sockOpen then 1 else 0}/{unread}")
+        s!"{s}:{x.id}:{free}:{dash "." (p.closed.map toString)}:{p.used.length}")
+      let line := s!"res={res} srv={showO ob.server} pc={showO ob.obj} inner={showO (po.bind (·.client))} io={showO (po.bind (·.io))} {Failover.showState st1.fo} pools=[{pools}] cons={cons}"
+      go st1 (k + 1) rest (line :: acc)
+  pure ("ok " ++ " | ".intercalate (go (HashPooledCall.init pcfg (List.range n) t0) 0 calls []))
+
 /-! ### C12: `batches seed=<n> nodes=<cps>;<cps> keys=<routing cps>~<key>|…` -/
 def handleBatches (ws : List String) : Option String := do
   let seed ← (← arg ws "seed").toNat?
@@ -779,6 +846,7 @@ def handle (ws : List String) : String :=
     | "pooled" :: rest => handlePooled rest
     | "pooledcall" :: rest => handlePooledCall rest
     | "hashcall" :: rest => handleHashCall rest
+    | "hashpooledcall" :: rest => handleHashPooledCall rest
     | "serde" :: rest => handleSerde rest
     | "aws.discover" :: rest => handleAwsDiscover rest
     | "aws.reconf" :: rest => handleAwsReconf rest
